@@ -25,15 +25,15 @@ DIRECTIONS = {0x0000: "SHUTTER_STOP", 0x0100: "SHUTTER_UP", 0x0001: "SHUTTER_DOW
 
 
 def be16(O, d, i):
-    return O.u(d, i) * 256 + O.u(d, i + 1)
+    return O.uint(d, i, 2, "big")
 
 
 def le16(O, d, i):
-    return O.u(d, i) + O.u(d, i + 1) * 256
+    return O.uint(d, i, 2, "little")
 
 
 def le32(O, d, i):
-    return O.u(d, i) + O.u(d, i + 1) * 256 + O.u(d, i + 2) * 65536 + O.u(d, i + 3) * 16777216
+    return O.uint(d, i, 4, "little")
 
 
 def decode(O, d, family):
